@@ -190,7 +190,18 @@ impl<'ctx> Ledger<'ctx> {
                 };
                 bal.add_amount(posting.account, delta.into_owned());
             }
-            bal.round(ctx);
+            // Up-to-date conversion must see the exact amount,
+            // otherwise the converted amount is affected by the precision of the original commodity.
+            // The converted balance is rounded later.
+            if !matches!(
+                query.conversion,
+                Some(Conversion {
+                    strategy: ConversionStrategy::UpToDate { .. },
+                    ..
+                })
+            ) {
+                bal.round(ctx);
+            }
             Cow::Owned(bal)
         };
         match query.conversion {
